@@ -44,7 +44,7 @@ Lookup(d, key) ==
   CASE KeyKind(key) = "null" -> Found(d)
     [] KeyKind(key) = "str" -> GetStrKey(d, key.v)
     [] KeyKind(key) = "int" ->
-         CASE d.t = "o" -> GetStrKey(d, key.x)      \* the key's decimal text
+         CASE d.t = "o" -> GetStrKey(d, NumText(key))      \* the key's decimal text
            [] d.t = "a" -> LET p == IndexPos(Len(d.v), IdxOfNum(key))
                            IN IF p = 0 THEN NotFound ELSE Found(d.v[p])
            [] d.t = "s" -> LET p == IndexPos(Len(d.v), IdxOfNum(key))
